@@ -159,7 +159,7 @@ PROPS = {
         'technique': 'channel differential + writer fault enumeration (every write call, byte offsets, 4 failure kinds, short writes) + purity digest + concurrent-vs-sequential comparison on a shared instance; Miri and ThreadSanitizer legs in the thorough tier',
         'claim': 'For generated multi-template programs (inheritance with super(), includes, components with bodies, loops, captures, both write sinks, autoescape on) every render/render_block/render_component/render_str result is compared with the bytes '
                  'its _to variant writes; a counting writer measures the W write calls and N bytes of each successful render and a failing writer is then injected at every call index (up to 160) and at byte offsets 0, 1, N/2, N-1 and every 7th, '
-                 'with kinds Other/WriteZero/Interrupted-then-error/BrokenPipe and 1-3 byte short writes: the result must be an Io error, the accepted bytes a prefix, no panic. A deterministic family drives all four entry points into the nesting limits (recursive components 10-41 levels deep, directly and through includes, include chains 96-158 deep): both channels must succeed with the same bytes or both fail. The hook digest of the engine and the context are compared before/after; '
+                 'with kinds Other/WriteZero/Interrupted-then-error/BrokenPipe and 1-3 byte short writes: the result must be an Io error, the accepted bytes a prefix, no panic. One job per program walks maps in every way whose output depends on their order (the dump variable, a map literal with variables, group_by, keys/values/pairs, a comprehension, json_encode), so that repeat, channel and thread comparisons see order instability. A deterministic family drives all four entry points into the nesting limits (recursive components 10-41 levels deep, directly and through includes, include chains 96-158 deep): both channels must succeed with the same bytes or both fail. The hook digest of the engine and the context are compared before/after; '
                  'one program in four is rendered from 2-16 threads on a fresh shared instance (random job orders, start barrier) and compared byte for byte with the sequential reference.',
         'note': 'Send+Sync of Tera, Context, Value, Key, Kwargs, Error, Number is a compile-time assertion in the harness (a regression is a build failure attributed to this check); data races proper are the business of the TSan/Miri legs, the quick tier only compares results',
         'rule': "one evaluation = one render or one injected failure point; a cell = (render variant, call/byte failure site, failure kind, short/full writes), (variant, ok/err) for the channel differential and the thread count for concurrency",
